@@ -88,7 +88,7 @@ def read_sys_comment(t, i, a):
     """
     try:
         j = t[i:].index(a)
-        while t[i+j+1:].startswith(a):
+        while a and t[i+j+1:].startswith(a):
             j += 1
         return i + j + len(a)
     except ValueError:
